@@ -125,7 +125,20 @@ macro_rules! eq_only {
     }};
 }
 
+// a comparison that panics is recorded (law no_panic), the run goes on
 fn cmp_pair(out: &mut String, x: &[u8], y: &[u8], rep: usize) {
+    let keep = out.len();
+    if std::panic::catch_unwind(std::panic::AssertUnwindSafe(|| cmp_pair_inner(out, x, y, rep))).is_err() {
+        out.truncate(keep);
+        out.push_str("{\"k\":\"panic\",\"mode\":\"cmp\",\"l\":");
+        jb(out, x);
+        out.push_str(",\"r\":");
+        jb(out, y);
+        out.push_str("}\n");
+    }
+}
+
+fn cmp_pair_inner(out: &mut String, x: &[u8], y: &[u8], rep: usize) {
     let br = bytes_reps(x);
     let mr = mut_reps(x);
     let br2 = bytes_reps(y);
@@ -238,6 +251,12 @@ fn chars(out: &mut String, s: &str) {
     out.push(']');
 }
 
+// a formatting call that panics is a result like any other (it is not any byte string's
+// rendering, so the law rejects it)
+fn fp<F: FnOnce() -> String>(f: F) -> String {
+    std::panic::catch_unwind(std::panic::AssertUnwindSafe(f)).unwrap_or_else(|_| "<panic>".to_string())
+}
+
 fn fmt_case(out: &mut String, d: &[u8], rep: usize) {
     let br = bytes_reps(d);
     let mr = mut_reps(d);
@@ -248,12 +267,12 @@ fn fmt_case(out: &mut String, d: &[u8], rep: usize) {
     macro_rules! three {
         ($v:expr) => {
             match rep % 6 {
-                1 => (format!("{:4?}", $v), format!("{:4x}", $v), format!("{:4X}", $v)),
-                2 => (format!("{:.0?}", $v), format!("{:.1x}", $v), format!("{:.3X}", $v)),
-                3 => (format!("{:#?}", $v), format!("{:#x}", $v), format!("{:#X}", $v)),
-                4 => (format!("{:<12?}", $v), format!("{:>9x}", $v), format!("{:^7X}", $v)),
-                5 => (format!("{:08?}", $v), format!("{:08x}", $v), format!("{:+X}", $v)),
-                _ => (format!("{:?}", $v), format!("{:x}", $v), format!("{:X}", $v)),
+                1 => (fp(|| format!("{:4?}", $v)), fp(|| format!("{:4x}", $v)), fp(|| format!("{:4X}", $v))),
+                2 => (fp(|| format!("{:.0?}", $v)), fp(|| format!("{:.1x}", $v)), fp(|| format!("{:.3X}", $v))),
+                3 => (fp(|| format!("{:#?}", $v)), fp(|| format!("{:#x}", $v)), fp(|| format!("{:#X}", $v))),
+                4 => (fp(|| format!("{:<12?}", $v)), fp(|| format!("{:>9x}", $v)), fp(|| format!("{:^7X}", $v))),
+                5 => (fp(|| format!("{:08?}", $v)), fp(|| format!("{:08x}", $v)), fp(|| format!("{:+X}", $v))),
+                _ => (fp(|| format!("{:?}", $v)), fp(|| format!("{:x}", $v)), fp(|| format!("{:X}", $v))),
             }
         };
     }
@@ -287,6 +306,9 @@ impl Rng {
 fn main() {
     let args: Vec<String> = std::env::args().collect();
     let mode = args.get(1).map(|s| s.as_str()).unwrap_or("cmp");
+    if mode == "cmp" {
+        std::panic::set_hook(Box::new(|_| {}));
+    }
     let outp = args.get(2).cloned().unwrap_or_else(|| "/dev/stdout".into());
     let seed: u64 = args.get(3).and_then(|s| s.parse().ok()).unwrap_or(1);
     let big = args.get(4).map(|s| s == "thorough").unwrap_or(false);
@@ -350,6 +372,7 @@ fn main() {
             }
         }
         "fmt" => {
+            std::panic::set_hook(Box::new(|_| {}));
             let mut k = seed as usize;
             for a in 0..=255u8 {
                 out.clear();
